@@ -635,6 +635,14 @@ func ruleUnderflowByDefinition(w *World, r *RuleResult) {
 			}
 			n++
 			key := fmt.Sprintf("%s | closing goError #%d", name, n)
+			var clear uint64
+			for _, g := range guardsAt(call.Block()) {
+				clear |= w.guardClearBits(g)
+			}
+			if clear&subn != 0 {
+				r.ok(key, w.instrPos(call), "reached only where Subnormal was found clear: nothing to complete", true)
+				continue
+			}
 			ok2 := false
 			var why string
 			for _, site := range underflowSites {
@@ -1050,6 +1058,53 @@ func (w *World) guardSetBits(g Guard) uint64 {
 			case other == 0 && single && (c.Op == token.NEQ) == val:
 				return mask
 			case other == mask && mask != 0 && (c.Op == token.EQL) == val:
+				return mask
+			}
+		}
+	}
+	return 0
+}
+
+// guardClearBits: the Condition bits known to be clear when the guard g holds.
+func (w *World) guardClearBits(g Guard) uint64 {
+	cc := w.conditionConsts()
+	cond, val := g.Cond, g.Val
+	for {
+		u, ok := cond.(*ssa.UnOp)
+		if !ok || u.Op != token.NOT {
+			break
+		}
+		cond, val = u.X, !val
+	}
+	switch c := cond.(type) {
+	case *ssa.Call:
+		nm := w.calleeName(c)
+		if !val && strings.HasPrefix(nm, "(Condition).") {
+			if b := cc[strings.TrimPrefix(nm, "(Condition).")]; b != 0 && b&(b-1) == 0 {
+				return b
+			}
+		}
+	case *ssa.BinOp:
+		if c.Op != token.EQL && c.Op != token.NEQ {
+			return 0
+		}
+		for _, pr := range [][2]ssa.Value{{c.X, c.Y}, {c.Y, c.X}} {
+			and, ok := pr[0].(*ssa.BinOp)
+			if !ok || and.Op != token.AND {
+				continue
+			}
+			var mask uint64
+			if m, ok := condBits(and.X); ok {
+				mask = m
+			} else if m, ok := condBits(and.Y); ok {
+				mask = m
+			} else {
+				continue
+			}
+			if k, isK := pr[1].(*ssa.Const); isK && ci(k) == 0 && (c.Op == token.EQL) == val {
+				return mask // no bit of the mask is set
+			}
+			if other, ok := condBits(pr[1]); ok && other == mask && mask != 0 && mask&(mask-1) == 0 && (c.Op == token.NEQ) == val {
 				return mask
 			}
 		}
